@@ -14,6 +14,13 @@ from coba.primitives import Dense, Sparse, Filter
 
 from coba.pipes.rows import HeadRows, LazyDense, LazySparse
 
+def _is_closed(item:str) -> bool:
+    #True if the text that starts with a quote also ends with that quote and the closing quote is not escaped.
+    #The closing quote is escaped when it is preceded by an odd number of back-slashes ('a\\\\' is closed, 'a\\' is not).
+    item = item.rstrip()
+    body = item[1:-1]
+    return len(item) > 1 and item[-1] == item[0] and (len(body)-len(body.rstrip("\\"))) % 2 == 0
+
 class CsvReader(Filter[Iterable[str], Iterable[MutableSequence]]):
     """A filter capable of parsing CSV formatted data."""
 
@@ -82,8 +89,7 @@ class ArffAttrReader(Filter[Iterable[str], Iterable[Tuple[str,Callable]]]):
                     break
 
                 if item[0] in quotes:
-                    q  = item[0]
-                    while item.rstrip()[-1] != q or item.rstrip()[-2]=="\\":
+                    while not _is_closed(item):
                         item += next(items)
 
                     item = self._r_escape.sub(r"\1", item.strip().rstrip()[1:-1])
@@ -261,10 +267,9 @@ class ArffLineReader(Filter[str, Sequence[str]]):
         while d_line:
             item = d_line.popleft().lstrip()
 
-            if item[0] in self._quotes:
-                possible_quotechar = item[0]
-                while item.rstrip()[-1] != possible_quotechar or item.rstrip()[-2] == "\\":
-                    item += "," + d_line.popleft()
+            if item and item[0] in self._quotes:
+                while not _is_closed(item):
+                    item += self._fallback_delim + d_line.popleft()
                 item = item.strip()[1:-1]
 
             parsed.append(self._r_escape.sub(r"\1",item))
